@@ -28,11 +28,23 @@ struct IdWaker {
 }
 impl Wake for IdWaker {
     fn wake(self: Arc<Self>) {
-        self.hits.fetch_add(1, Ordering::SeqCst);
+        self.wake_by_ref()
     }
     fn wake_by_ref(self: &Arc<Self>) {
         self.hits.fetch_add(1, Ordering::SeqCst);
+        // A waker may run arbitrary code (an eager executor polls the task inside wake()), and a
+        // thread may be preempted right after it: the point just after the wake-up is a scheduling
+        // point of its own for the thread that called wake().
+        IN_WAKE.with(|h| {
+            if let Some(f) = h.borrow_mut().as_mut() {
+                f();
+            }
+        });
     }
+}
+
+thread_local! {
+    static IN_WAKE: std::cell::RefCell<Option<Box<dyn FnMut()>>> = const { std::cell::RefCell::new(None) };
 }
 
 enum PMsg {
@@ -248,7 +260,16 @@ fn run_case(out: &mut Out, case: &Value) {
                 }
                 "drop" => {
                     let b = body.take();
-                    let _ = catch(move || drop(b));
+                    if w % 2 == 0 {
+                        // the body goes away during panic unwinding (a connection task that panics
+                        // while it holds the response)
+                        let _ = catch(move || {
+                            let _held = b;
+                            panic!("unwinding with the body alive");
+                        });
+                    } else {
+                        let _ = catch(move || drop(b));
+                    }
                     r["res"] = json!("dropped");
                 }
                 _ => {}
@@ -285,6 +306,16 @@ fn run_case(out: &mut Out, case: &Value) {
                 let _ = tx_hook.send(PMsg::Yield(site.name().to_string()));
                 let _ = rx2.lock().unwrap().recv();
             })));
+            {
+                let tx_w = p_tx.clone();
+                let rx_w = rx.clone();
+                IN_WAKE.with(|h| {
+                    *h.borrow_mut() = Some(Box::new(move || {
+                        let _ = tx_w.send(PMsg::Yield("after_wake".to_string()));
+                        let _ = rx_w.lock().unwrap().recv();
+                    }))
+                });
+            }
             // wait for the first grant before doing anything
             let _ = rx.lock().unwrap().recv();
             let r = std::panic::catch_unwind(std::panic::AssertUnwindSafe(|| {
@@ -338,6 +369,7 @@ fn run_case(out: &mut Out, case: &Value) {
                 drop(w);
             }));
             set_thread_hook(None);
+            IN_WAKE.with(|h| *h.borrow_mut() = None);
             match r {
                 Ok(()) => {
                     let _ = p_tx2.send(PMsg::Finished);
@@ -472,7 +504,7 @@ fn run_case(out: &mut Out, case: &Value) {
             } else if alive && r >= 96 && r < 99 {
                 Some(("C".into(), "eos".into(), 0))
             } else if alive && r == 99 && case["rand_cdrop"].as_bool().unwrap_or(false) {
-                Some(("C".into(), "drop".into(), 0))
+                Some(("C".into(), "drop".into(), rng.below(2) as usize))
             } else if can_poll && !(term && after >= extra) {
                 Some(("C".into(), "poll".into(), 1 + rng.below(NWAKERS as u64) as usize))
             } else if p_runnable {
